@@ -830,4 +830,112 @@ theorem joinPlan_examples :
     joinPlan chainSchema "fold" ["item"] = none ∧
     joinPlan chainSchema "fold" ["fold"] = some ["fold", "fold"] := by decide
 
+/-! ## Pins: the constants of the anchored code that the hand-written model and the naive evaluator mirror
+
+`Generated/TablesC12.lean` is regenerated on every run from the live objects of `/repo`
+(`harness/c12.py: tables()`): module constants, default arguments (`__defaults__`), and the constants of
+the code objects (`co_consts`, nested functions and comprehensions included; `#…` marks a non-string
+constant, `(a|b)` a tuple, `<code f>` a nested code object; docstrings and exception-message prose are
+left out).  A change to any of them stops this theorem from checking, which the check reports as a
+broken proof obligation and then searches for a failing input.
+
+Which model definition hand-codes what:
+* `c12CoreFiles` (`TSDB_CORE_FILES`) — `coreFiles` in `dbRecords` (to_copy) and `keeps` (skeleton);
+  `c12CodedAttributes` (`TSDB_CODED_ATTRIBUTES`) and `c12FieldInit` (`-1` for `:integer`, else empty;
+  `:key`/`:primary`/`:foreign…`) — `Field.default`, `Field.isKey`; `c12ModuleConsts` — the `relations`
+  file (`Dir.schema`) and the `@` delimiter (`Splitter.ofDelim`, C08's `splitRaw`).
+* `c12Mkprof` — the defaults of `mkprof` (source/schema/where/delimiter `None`, refresh/skeleton/full/
+  gzip/quiet `False`) are what the harness passes explicitly or relies on; dispatch = the three driver
+  operations `mkprofDb` / `mkprofRefresh` / `mkprofLines`.
+* `c12MkprofFromLines` (`files=True`, relation `item`) — `initFiles`, `sch.lookup "item"` in `mkprofLines`;
+  `c12LinesToRecords` (`i-id`, `i-length`, `i-input`, start 1, `rstrip('\n')`, `or ''`) — `lineRecord`,
+  `addId`, `addLength`, `linesLoop … 1`; `c12MakeSplit` (`*`, 0/1, (`i-wf`,`i-input`), `@`) —
+  `Splitter.split`, `Splitter.ofDelim`, `makeSplit`.
+* `c12MkprofFromDatabase` (`'where '`, `'* from '`, `' '`: the query `* from {table} {where}`,
+  `exist_ok`) — `selectRows`/`planSel` with `t` as the FIRST relation of the plan, `dbRecords`;
+  `c12NoSuchRelation`, `c12TsqlDistinct` (no constants: pure control flow) — `dbRecords`' last branch,
+  `distinctAux`; `c12MkprofCleanup` (suffixes `''`/`.gz`, size `0`) — `cleanupOne`, `cleanup`.
+* `c12TsdbWrite` (defaults append/gzip `False`; `wb`; `tell() != 0`), `c12GetPaths`, `c12CleanupFiles`,
+  `c12InitializeDatabase` — `writeRel`, `RelFiles.useGz`, `initFiles`; `c12WriteDatabase`
+  (`append=False`), `c12RemakeRecords`, `c12MakeRecord` (missing ⇒ `None`) — `refreshRecords`, `remake`,
+  `lookupLast`; `c12TsdbSplit`, `c12TsdbJoin`, `c12TsdbFormat` — `readCell`, `encodeRec`, `fmtCell`.
+* `c12PlanJoins`, `c12PivotRelations` (`len(keys) > 1`, more than `1` component touched),
+  `c12MakeKeymap`, `c12Join` (`inner`) — `joinPlan`, `pivotLoop`, `components`, `reachLoop`, `keysOf`.
+* `c12ProjectAll`, `c12QnameResolver`, `c12ConditionFields`, `c12ExpectedType`, `c12ConditionFunction`,
+  `c12ParseConditionStatement`, `c12ParseSelect`, `c12OperatorFunctions`, `c12LexerTokens` — mirrored by
+  the harness only (`naive_select`, `n_leaf`, `cond_text` in harness/c12.py: the parameter `Filt` and
+  the oracle's `kept` flags). -/
+theorem c12_pins :
+    coreFiles = c12CoreFiles ∧ codedAttributes = c12CodedAttributes ∧ c12CoreFiles =
+      ["item", "analysis", "phenomenon", "parameter", "set", "item-phenomenon", "item-set"]
+    ∧ c12CodedAttributes =
+      [("i-wf", "1"), ("i-difficulty", "1"), ("polarity", "-1")]
+    ∧ c12ModuleConsts =
+      ["relations", "@"]
+    ∧ c12Mkprof =
+      ["defaults=(#None|#None|#None|#None|#False|#False|#False|#False|#False)", "kwdefaults=()", "#None", "(schema|gzip)"]
+    ∧ c12MkprofFromLines =
+      ["#None", "#True", "(files)", "item", "(fields|gzip)"]
+    ∧ c12LinesToRecords =
+      ["#None", "#False", "i-id", "#True", "i-length", "#1", "\n", ", ", "i-input", ""]
+    ∧ c12MakeSplit =
+      ["#None", "<code split>", "#None", "*", "#0", "#1", "(i-wf|i-input)", "@", "<code split>", "#None", "\n"]
+    ∧ c12MkprofFromDatabase =
+      ["#None", "#True", "(exist_ok)", "", "where ", "* from ", " ", "(gzip)"]
+    ∧ c12NoSuchRelation =
+      ["#True", "#False"]
+    ∧ c12TsqlDistinct =
+      ["#None"]
+    ∧ c12MkprofCleanup =
+      ["#None", "", ".gz", "#0"]
+    ∧ c12FieldInit =
+      ["defaults=(#None|#None)", "kwdefaults=()", "#None", "#False", "(:key|:primary)", ":foreign", "#True", ":integer", "-1", ""]
+    ∧ c12TsdbWrite =
+      ["defaults=(#None|#False|#False|utf-8)", "kwdefaults=()", "#None", "utf-8", "ab", "wb", "w+b", ".tmp", "(mode|suffix|prefix|dir)", "\n", "#0", "(mode)"]
+    ∧ c12WriteDatabase =
+      ["defaults=(#None|#None|#False|utf-8)", "kwdefaults=()", "#None", "#True", "(exist_ok)", "#False", "(append|gzip|encoding)"]
+    ∧ c12RemakeRecords =
+      ["#None"]
+    ∧ c12MakeRecord =
+      ["<code <genexpr>>", "#None"]
+    ∧ c12GetPaths =
+      ["#None", "", ".gz", "#False", "#True"]
+    ∧ c12InitializeDatabase =
+      ["defaults=(#False)", "kwdefaults=()", "#True", "(exist_ok)", "#None"]
+    ∧ c12CleanupFiles =
+      ["#None", "", ".gz"]
+    ∧ c12TsdbSplit =
+      ["defaults=(#None)", "kwdefaults=()", "\n", "#None", "<code <genexpr>>", "#None"]
+    ∧ c12TsdbJoin =
+      ["defaults=(#None)", "kwdefaults=()", "(default)", ""]
+    ∧ c12TsdbFormat =
+      ["defaults=(#None)", "kwdefaults=()", ":integer", "-1", "", ":date", "-", "-%Y", "(#0|#0|#0)", " %H:%M:%S"]
+    ∧ c12PlanJoins =
+      [".", "#False", "#True"]
+    ∧ c12PivotRelations =
+      ["<code add_edges>", "#None", "#1", "#1", "#False", "<code <genexpr>>", "#1", "#0", "#None", "#True", ", "]
+    ∧ c12MakeKeymap =
+      ["#None"]
+    ∧ c12Join =
+      ["defaults=(inner)", "kwdefaults=()", "(inner|left)", "#None", "#True", "(cast)", "cast", "left"]
+    ∧ c12ProjectAll =
+      ["#None", "."]
+    ∧ c12QnameResolver =
+      ["#True", "(key|reverse)", "colname", "return", "<code resolve>", "#None", ".", "#0"]
+    ∧ c12ConditionFields =
+      ["#None", "(and|or)", "not", "#0", "#1"]
+    ∧ c12ExpectedType =
+      ["#None", ":string", ":integer", ":float", ":date"]
+    ∧ c12ConditionFunction =
+      ["#None", "(and|or)", "and", "<code func>", "#None", "<code <genexpr>>", "#None", "not", "<code func>", "#None", "~", "<code func>", "#None", "#0", "#1", "!~", "<code func>", "#None", "#0", "#1", "<code func>", "#None", "#0", "#1"]
+    ∧ c12ParseConditionStatement =
+      ["#None", "=", "==", "(~|!~)", "(<|<=|>|>=)", ":date"]
+    ∧ c12ParseSelect =
+      ["#None", ".", "*", "(text)", "select", "(type|projection|relations|condition)"]
+    ∧ c12OperatorFunctions =
+      ["==", "!=", "<", "<=", ">", ">="]
+    ∧ c12LexerTokens =
+      [("from", "FROM"), ("where", "WHERE"), ("report", "REPORT"), ("\\*", "STAR"), ("\\.", "DOT"), ("==|=|!=|~|!~|<=|<|>=|>", "OP"), ("&&|&|and", "AND"), ("\\|\\||\\||or", "OR"), ("!|not", "NOT"), ("\\(", "LPAREN"), ("\\)", "RPAREN"), ("\"([^\"\\\\]*(?:\\\\.[^\"\\\\]*)*)\"", "DQSTRING"), ("'([^'\\\\]*(?:\\\\.[^'\\\\]*)*)'", "SQSTRING"), ("[0-9]{4}-(?:[0-9][0-9]?|jan|feb|mar|apr|may|jun|jul|aug|sep|oct|nov|dec)(?:-[0-9]{1,2})?(?:\\s*\\([0-9]{2}:[0-9]{2}(?::[0-9]{2})?\\)|\\s+[0-9]{2}:[0-9]{2}(?::[0-9]{2}))?", "YYYYMMDD"), ("(?:[0-9]{1,2}-)?(?:[0-9][0-9]?|jan|feb|mar|apr|may|jun|jul|aug|sep|oct|nov|dec)-(?:[0-9]{2})?[0-9]{2}(?:\\s*\\([0-9]{2}:[0-9]{2}(?::[0-9]{2})?\\)|\\s+[0-9]{2}:[0-9]{2}(?::[0-9]{2}))?", "DDMMYY"), (":today|now", "KWDATE"), ("[+-]?\\d+", "INT"), ("[a-zA-Z][-_a-zA-Z0-9]*\\.[a-zA-Z][-_a-zA-Z0-9]*", "QID"), ("[a-zA-Z][-_a-zA-Z0-9]*", "ID"), ("[^\\s]", "UNEXPECTED")] := by
+  refine ⟨?_, ?_, ?_, ?_, ?_, ?_, ?_, ?_, ?_, ?_, ?_, ?_, ?_, ?_, ?_, ?_, ?_, ?_, ?_, ?_, ?_, ?_, ?_, ?_, ?_, ?_, ?_, ?_, ?_, ?_, ?_, ?_, ?_, ?_, ?_, ?_, ?_⟩ <;> rfl
+
 end Verif.C12
